@@ -12,7 +12,7 @@ from sv import core
 
 PROPERTY = "C11"
 GEN = ["Murphy"]
-PROPS = ["ScoresVerif/Props/C11.lean", "ScoresVerif/Props/C11Bridge.lean"]
+PROPS = ["ScoresVerif/Props/C11.lean", "ScoresVerif/Props/C11Bridge.lean", "ScoresVerif/Props/C11Taggart.lean"]
 DRIVER_DEPS = ["ScoresVerif.Driver.C11"]
 AUDIT_FILES = ["ScoresVerif/Lemmas/Bridge.lean", "ScoresVerif/Lemmas/Murphy.lean", "ScoresVerif/Spec/Murphy.lean", "ScoresVerif/Model/Murphy.lean"]
 LEVEL = "proof"
